@@ -1,6 +1,6 @@
 (* Totality of the unfaulted Encrypt on live, cached sessions: it cannot fail (C01, and C02's "once the faults stop the next
    operation succeeds").  Part Z: no row carries the stamp 0.  Part T: the no-failure ("noerr") chain. *)
-From Asherah Require Import Envelope.Session Envelope.Frame Envelope.FrameInst Envelope.Hoare Envelope.Coherent Envelope.Local Envelope.Live Envelope.Expiry Envelope.Rotation.
+From Asherah Require Import Envelope.Session Envelope.Frame Envelope.FrameInst Envelope.Hoare Envelope.Coherent Envelope.Local Envelope.Live Envelope.LiveClose Envelope.Expiry Envelope.Rotation.
 From Coq Require Import Lia.
 Open Scope Z_scope.
 
@@ -936,20 +936,15 @@ Qed.
 
 End PartT.
 
-(* At the API, after any history (new factories with any cache policies, sessions, encrypts and decrypts under any fault plans, clock
-   changes, revocations; no closes, no session cache): an Encrypt for which no fault is injected SUCCEEDS - whatever the caches
-   hold, whether keys are found, stale, expired, revoked, have to be created, or the insert is refused and the fallback runs.
-   Side conditions: no stored row carries stamp 0 and the operation's own key stamp would not be 0 (both true of any real clock). *)
-Theorem unfaulted_encrypt_succeeds svc prod t0 ops s x fa payload :
-  Forall (benignL svc prod) ops ->
-  let h := snd (hrun (hinit t0) ops) in
+(* from the liveness invariant alone *)
+Lemma encrypt_total_from_HIL svc prod h s x fa payload :
+  HIL svc prod (h_world h) ->
   let w := h_world h in
   nth_error (w_sessions w) s = Some x -> nth_error (w_factories w) (ss_factory x) = Some fa ->
   nz_store (w_store w) -> new_key_timestamp (w_now w) (p_precision (fa_policy fa)) <> 0 ->
   exists pm c, fst (fst (hstep h (HEncrypt s payload []))) = OEnc pm c.
 Proof.
-  intros FB h w Es Ef NZ TZ.
-  destruct (live_invariants_reachable svc prod t0 ops FB) as [_ [kinds [H [HIL0 _]]]]. fold h in HIL0. fold w in HIL0.
+  intros [kinds [H [HIL0 _]]] w Es Ef NZ TZ. fold w in HIL0.
   cbn [hstep]. fold w. set (w0 := begin_op [] w).
   pose proof (IL_begin_op svc prod kinds H [] w HIL0) as [HI0 L0]. fold w0 in HI0, L0.
   assert (HB : Base svc prod kinds (w_now w) H w0).
@@ -964,6 +959,33 @@ Proof.
   destruct (n_encrypt_payload svc prod kinds e EO (w_now w) TZ (PPayload payload) w0 (ex_intro _ H HB)) as [d [w1 E1]].
   pose proof (encrypt_payload_spec svc prod kinds e (PPayload payload) EO w0 HI0) as Y. rewrite E1 in Y |- *. cbn [outcome fst].
   destruct Y as [_ [k [c [ikm [n [dkm [n' [Dk [Ep _]]]]]]]]]. rewrite Dk, Ep. eexists; eexists; reflexivity.
+Qed.
+
+(* At the API, after any history (new factories with any cache policies, sessions, encrypts and decrypts under any fault plans, clock
+   changes, revocations; no closes, no session cache): an Encrypt for which no fault is injected SUCCEEDS - whatever the caches
+   hold, whether keys are found, stale, expired, revoked, have to be created, or the insert is refused and the fallback runs.
+   Side conditions: no stored row carries stamp 0 and the operation's own key stamp would not be 0 (both true of any real clock). *)
+Theorem unfaulted_encrypt_succeeds svc prod t0 ops s x fa payload :
+  Forall (benignL svc prod) ops ->
+  let h := snd (hrun (hinit t0) ops) in
+  let w := h_world h in
+  nth_error (w_sessions w) s = Some x -> nth_error (w_factories w) (ss_factory x) = Some fa ->
+  nz_store (w_store w) -> new_key_timestamp (w_now w) (p_precision (fa_policy fa)) <> 0 ->
+  exists pm c, fst (fst (hstep h (HEncrypt s payload []))) = OEnc pm c.
+Proof.
+  intros FB h w. apply (encrypt_total_from_HIL svc prod h s x fa payload). exact (proj2 (live_invariants_reachable svc prod t0 ops FB)).
+Qed.
+
+(* the same with Session.Close in the history, for factories whose sessions own no key cache *)
+Theorem unfaulted_encrypt_succeeds_closing svc prod t0 ops s x fa payload :
+  Forall (benignC svc prod) ops ->
+  let h := snd (hrun (hinit t0) ops) in
+  let w := h_world h in
+  nth_error (w_sessions w) s = Some x -> nth_error (w_factories w) (ss_factory x) = Some fa ->
+  nz_store (w_store w) -> new_key_timestamp (w_now w) (p_precision (fa_policy fa)) <> 0 ->
+  exists pm c, fst (fst (hstep h (HEncrypt s payload []))) = OEnc pm c.
+Proof.
+  intros FB h w. apply (encrypt_total_from_HIL svc prod h s x fa payload). exact (proj1 (proj2 (live_invariants_reachable_closing svc prod t0 ops FB))).
 Qed.
 
 (* the premises are met after a history with rotation and an expired system key, and the Encrypt there returns a record *)
